@@ -38,6 +38,7 @@ inductive Val where
   | str (s : Str)
   | none
   | ref (a : Addr)
+  | elist            -- a brand-new empty list nobody else holds (what the repaired `get_field_value` hands out): a value
   deriving DecidableEq, Repr, Inhabited
 
 inductive Body where
@@ -109,15 +110,20 @@ inductive ClassDef where
   deriving Repr, Inhabited
 
 structure Schema where
+  /-- `false`: the code as it is — an unset array field reads as the class-level list object `Array.default_value`.
+      `true`: the repaired `get_field_value` (fixes/C18-shared-array-default.md) — it reads as a new empty list each time.
+      The harness probes which of the two the library under test does and says so in every request. -/
+  freshArrayDefault : Bool
   classes : List ClassDef
   deriving Repr, Inhabited
 
 /-- what `get_field_value` falls back to: `field.type.default_value if field.default_value is None else field.default_value` -/
-def FTy.default : FTy → Val
+def FTy.default (fresh : Bool) : FTy → Val
   | .int _ d => match d with
     | some v => .int v
     | none => .int 0                 -- `Int.default_value = 0`
-  | .arr _ _ => .ref 0               -- `Array.default_value`: the one class-level list object
+  | .arr _ _ => if fresh then .elist  -- repaired: `list(default)`
+                else .ref 0          -- as is: `Array.default_value`, the one class-level list object
   | .recd _ => .none                 -- `_Record.default_value = None`
 
 /-- `DataSegment.__getitem__` on a key that is not in `values`: `field.default_value()` for a `Field`, else `None` -/
@@ -133,7 +139,7 @@ def enumFrom : Nat → List α → List (Nat × α)
 /-- the declared keys of a class with the value an unassigned key reads as -/
 def Schema.declared (S : Schema) (c : Nat) : List (Key × Val) :=
   match S.classes[c]? with
-  | some (.binRec _ fs) => (enumFrom 0 fs).map (fun p => (p.1, p.2.default))
+  | some (.binRec _ fs) => (enumFrom 0 fs).map (fun p => (p.1, p.2.default S.freshArrayDefault))
   | some (.fixSeg _ es) => es.map (fun e => (e.tag, e.default))
   | _ => []
 
@@ -212,6 +218,7 @@ def resolve (S : Schema) (h : Cells) : Val → List Step → Except Err Val
       | some v => resolve S h v p
       | none => .error .index
     | _ => .error .attr
+  | .elist, .idx _ :: _ => .error .index          -- `[][i]`
   | _, _ :: _ => .error .attr
 
 /-- the deep value of what a read returns: what the instance "reads" -/
@@ -234,6 +241,7 @@ def deref (S : Schema) : Nat → Cells → Val → DVal
   | _, _, .int i => .int i
   | _, _, .str s => .str s
   | _, _, .none => .none
+  | _, _, .elist => .list []
   | 0, _, .ref _ => .cut
   | n + 1, h, .ref a =>
     match h[a]? with
@@ -612,12 +620,14 @@ def getInst (H : Heap) (a : Nat) : Except Err (Nat × Addr) :=
   | some cr => .ok cr
   | none => .error .key
 
-/-- the cell an in-place operation on instance `a` reaches through path `p` -/
-def mutTarget (S : Schema) (H : Heap) (a : Nat) (p : List Step) : Except Err Addr := do
+/-- the cell an in-place operation on instance `a` reaches through path `p`; `none`: a temporary list that only the
+    caller holds (repaired default of an unset array field) -/
+def mutTarget (S : Schema) (H : Heap) (a : Nat) (p : List Step) : Except Err (Option Addr) := do
   let cr ← getInst H a
   let v ← resolve S H.cells (.ref cr.2) p
   match v with
-  | .ref r => .ok r
+  | .ref r => .ok (some r)
+  | .elist => .ok Option.none
   | _ => .error .attr
 
 def listSet (xs : List Val) (i : Nat) (v : Val) : Except Err (List Val) :=
@@ -636,7 +646,7 @@ def step (S : Schema) (H : Heap) : Op → Except Err Heap
     let _ ← resolve S H.cells (.ref cr.2) p
     .ok H
   | .assign a p k t => do
-    let r ← mutTarget S H a p
+    let some r ← mutTarget S H a p | .error .attr           -- a list has no fields
     match H.cells[r]? with
     | some ⟨_, .obj c st⟩ => do
       let t' ← convAssign S c k t
@@ -644,14 +654,14 @@ def step (S : Schema) (H : Heap) : Op → Except Err Heap
       .ok { H with cells := setBody al.1 r (.obj c (storeSet st k al.2)) }
     | _ => .error .attr
   | .append a p t => do
-    let r ← mutTarget S H a p
+    let some r ← mutTarget S H a p | .ok H                   -- appended to a temporary list: nothing any instance holds changes
     match H.cells[r]? with
     | some ⟨_, .list xs⟩ =>
       let al := allocTree (.inst a) t H.cells
       .ok { H with cells := setBody al.1 r (.list (xs ++ [al.2])) }
     | _ => .error .attr
   | .setIdx a p i t => do
-    let r ← mutTarget S H a p
+    let some r ← mutTarget S H a p | .error .index           -- `[][i] = x`
     match H.cells[r]? with
     | some ⟨_, .list xs⟩ => do
       let al := allocTree (.inst a) t H.cells
@@ -699,8 +709,8 @@ def run (S : Schema) (H : Heap) (ops : List Op) : Heap := ops.foldl (stepK S) H
 def writeOwner (S : Schema) (H : Heap) : Op → Option Owner
   | .assign a p _ _ | .append a p _ | .setIdx a p _ _ =>
     match mutTarget S H a p with
-    | .ok r => (H.cells[r]?).map (·.own)
-    | .error _ => Option.none
+    | .ok (some r) => (H.cells[r]?).map (·.own)
+    | _ => Option.none
   | _ => Option.none
 
 /-- the operation does not write into a class-level object (hypothesis of the `_partial` frame theorem:
@@ -723,7 +733,7 @@ def Op.target (H : Heap) : Op → Nat
 
 /-- message 65 with a 2-byte int and an array of bytes -/
 def witnessSchema : Schema :=
-  ⟨[.binRec (some 65) [.int ⟨2, false, false⟩ none, .arr (.int ⟨1, false, false⟩) ⟨2, false, false⟩]]⟩
+  ⟨false, [.binRec (some 65) [.int ⟨2, false, false⟩ none, .arr (.int ⟨1, false, false⟩) ⟨2, false, false⟩]]⟩
 
 /-- `items.append(7)` on the never-assigned array field of instance 0 -/
 def witnessBadOp : Op := .append 0 [.fld 1] (.int 7)
